@@ -243,6 +243,78 @@ class TokPure(Pure):
         return super().block(stmts, env, k)
 
 
+def delivery_modes(tokenize, gen_name):
+    """tokenize(data_source, callback=None, generator=False) evaluated in its three modes (callback true / callback false and
+    generator true / both false): what is done with the generator self.<gen_name>(data_source)"""
+    params = [a.arg for a in tokenize.args.args]
+    if params != ["self", "data_source", "callback", "generator"]:
+        raise TranslationError("tokenize signature changed: %r" % params)
+    GEN = ("gen",)
+
+    def ev(e, env):
+        if isinstance(e, ast.Name):
+            if e.id in env:
+                return env[e.id]
+            bad(e, "unknown name %s" % e.id)
+        if isinstance(e, ast.Constant):
+            return ("const", e.value)
+        if isinstance(e, ast.Call) and ast.unparse(e.func) == "self." + gen_name and [ast.unparse(a) for a in e.args] == ["data_source"] and not e.keywords:
+            if env.get("#made"):
+                bad(e, "the generator is created twice")
+            env["#made"] = True
+            return GEN
+        if isinstance(e, ast.Call) and isinstance(e.func, ast.Name) and e.func.id == "list" and len(e.args) == 1 and ev(e.args[0], env) == GEN:
+            return ("list",)
+        if isinstance(e, ast.UnaryOp) and isinstance(e.op, ast.Not):
+            v = ev(e.operand, env)
+            if v[0] == "truth":
+                return ("truth", not v[1])
+        bad(e, "expression %s in tokenize()" % ast.unparse(e))
+
+    def run(stmts, env):
+        for st in stmts:
+            if isinstance(st, ast.Expr) and isinstance(st.value, ast.Constant):
+                continue
+            if isinstance(st, ast.Assign) and len(st.targets) == 1 and isinstance(st.targets[0], ast.Name):
+                env[st.targets[0].id] = ev(st.value, env)
+                continue
+            if isinstance(st, ast.If):
+                v = ev(st.test, env)
+                if v[0] != "truth":
+                    bad(st, "test on something else than the truth of callback / generator")
+                out = run(st.body if v[1] else st.orelse, env)
+                if out is not None:
+                    return out
+                continue
+            if isinstance(st, ast.For) and not st.orelse and ev(st.iter, env) == GEN and isinstance(st.target, ast.Name):
+                body = [x for x in st.body]
+                if len(body) == 1 and isinstance(body[0], ast.Expr) and ast.unparse(body[0].value) == "callback(*%s)" % st.target.id:
+                    env["#each"] = True
+                    continue
+                bad(st, "loop over the generator that does not just call callback(*token)")
+            if isinstance(st, ast.Return):
+                v = ("const", None) if st.value is None else ev(st.value, env)
+                return v
+            bad(st, "statement %s in tokenize()" % type(st).__name__)
+        return None
+    out = []
+    for name, cb, gn in (("callback", True, False), ("callback and generator", True, True), ("generator", False, True), ("list", False, False)):
+        env = {"callback": ("truth", cb), "generator": ("truth", gn)}
+        r = run(Pure.body_of(tokenize), env) or ("const", None)
+        if not env.get("#made"):
+            bad(tokenize, "mode %s does not create the generator" % name)
+        if env.get("#each"):
+            what = "each token is passed to callback(*token) as the generator produces it; returns %s" % ("None" if r == ("const", None) else r[0])
+        elif r == GEN:
+            what = "returns the generator"
+        elif r == ("list",):
+            what = "returns list(generator)"
+        else:
+            bad(tokenize, "mode %s returns %r without consuming the generator" % (name, r))
+        out.append("%s: %s" % (name, what))
+    return out
+
+
 def emit(core_py):
     src = open(core_py).read()
     tree = ast.parse(src)
@@ -410,6 +482,9 @@ def emit(core_py):
         env["self." + attr] = V(getter, ty)
     body = tr.block(Pure.body_of(init), env, lambda e2: ret_cfg(tr, NONE, e2, init))
     out.append("Definition validate2 (min_length max_length max_continuous_silence init_min init_max_silence mode : Z) : result config :=\n  %s.\n" % body)
+    modes = delivery_modes(tokenize, gens[0].name)
+    out.append("From Coq Require Import String.\nOpen Scope string_scope.")
+    out.append("Definition delivery_modes2 : list String.string := [%s]." % "; ".join('"%s"' % m for m in modes))
     return "\n".join(out) + "\n"
 
 
